@@ -543,6 +543,9 @@ func (c *call) signature(kind string) string {
 // ---------------------------------------------------------------- Exec
 
 func exec(spec string) (res engine.Result) {
+	if strings.HasPrefix(spec, "mapdirect|") {
+		return execMapDirect(spec)
+	}
 	if strings.HasPrefix(spec, "probe|") {
 		v, err := lisp.Eval(spec[6:])
 		if err != nil {
